@@ -8,7 +8,7 @@ if [ ! -d $W ]; then git -C /repo worktree add -q $W HEAD || exit 2; fi
 git -C $W checkout -q --detach $(git -C /repo rev-parse HEAD) && git -C $W checkout -q -- . 
 [ -d $W/_build ] || cmake -G Ninja -S $W -B $W/_build -DCMAKE_BUILD_TYPE=RelWithDebInfo -DCMAKE_CXX_FLAGS=-Wno-error > /tmp/confirm.cmake.log 2>&1
 CXX=$(grep -o 'clang++\|g++' $S/demo.cpp | head -1); CXX=${CXX:-g++}
-DEMOFLAGS=$(grep -o '\-O[0-3s]' $S/demo.cpp | head -1)
+DEMOFLAGS="$(grep -o '\-O[0-3s]' $S/demo.cpp | head -1) $(head -1 $S/demo.cpp | grep -o '\-D[A-Z_]*' | tr '\n' ' ')"
 # demo on the original
 $CXX -std=gnu++20 $DEMOFLAGS -I$W/include $S/demo.cpp -o /tmp/confirm.demo.orig > /tmp/confirm.demo.orig.log 2>&1; timeout 60 /tmp/confirm.demo.orig > /tmp/confirm.demo.orig.out 2>&1; ORIG=$?
 git -C $W apply $S/patch.diff || { echo "RESULT=patch-does-not-apply" > $R; exit 1; }
